@@ -134,12 +134,6 @@ def observe(c):
         c.outcome, c.exc = "decl", e
     except Exception as e:  # noqa
         c.outcome, c.exc = "raise", e
-    if c.outcome == "raise" and isinstance(c.exc, ValueError) and "integer string conversion" in str(c.exc) \
-            and pyspec.has_huge_int(c.value):
-        # F28: rendering the error message of an int beyond CPython's int->str limit; message
-        # rendering is outside the substitution model (the C12 oracle still reports the raise)
-        c.unmodelled, c.term = "F28: error message rendering beyond the int->str digit limit", None
-        return c
     try:
         kt = absn.KeyTable()
         st = absn.cschema(c.schema, kt)
